@@ -263,9 +263,9 @@ def run(ck, prog, tier, load):
     n = 0
     for b, bb, s, e in writes_of_field(prog, F + "need_read$", crates):
         n += 1
-        c = norm_cmp(e)
-        ok = e[:3] == ("const", None, 1) or (
-            c is not None and c[0] == "Lt" and c[3] is True and last_field(c[1]) and rx(F + "len$").search(last_field(c[1])) and e_has_const(c[2], r"payload::MAX_BUFFER_SIZE$")
+        ok = e[:3] == ("const", None, 1) or any(
+            c[0] == "Lt" and c[3] is True and last_field(c[1]) and rx(F + "len$").search(last_field(c[1])) and e_has_const(c[2], r"payload::MAX_BUFFER_SIZE$")
+            for c in cmp_forms(e)
         )
         ck.ob("C07-d.need-read-expr", "%s" % b.npath, bool(ok), b, bb, "need_read := %s" % short(e))
     ck.anchor("C07-d", n, 2, "writes of Inner.need_read")
